@@ -4,7 +4,7 @@
     Per-property tables live in DriverCxx.v ([dispatch_cxx : Z -> val -> option val], None for
     an id they do not own) and are chained in [dispatch] below. *)
 From SE Require Import Base Codecs Fat Stream Transcode Cue Names AkaiImage Container StreamProofs DriverBase.
-From SE Require DriverC20 DriverC04 DriverC19 DriverC02 DriverC15.
+From SE Require DriverC20 DriverC04 DriverC19 DriverC02 DriverC15 DriverC14.
 
 Definition dispatch_core (id : Z) (a : val) : option val :=
   Some (
@@ -84,7 +84,7 @@ Definition dispatch_core (id : Z) (a : val) : option val :=
 
 
 Definition owns_core (id : Z) : bool := id <? 700.
-Definition exts : list (Z -> val -> option val) := [DriverC20.dispatch_c20; DriverC04.dispatch_c04; DriverC19.dispatch_c19; DriverC02.dispatch_c02; DriverC15.dispatch_c15].
+Definition exts : list (Z -> val -> option val) := [DriverC20.dispatch_c20; DriverC04.dispatch_c04; DriverC19.dispatch_c19; DriverC02.dispatch_c02; DriverC15.dispatch_c15; DriverC14.dispatch_c14].
 Fixpoint first_some (l : list (Z -> val -> option val)) (id : Z) (a : val) : val :=
   match l with
   | [] => vbad
